@@ -437,6 +437,90 @@ std::string control_roundtrip(std::uint16_t port, const std::string& request) {
     return text.substr(p + 5, text.find('\n', p) - p - 5);
 }
 
+// first bytes of an answer within `deadline_ms`, or "timeout"
+std::string control_probe(std::uint16_t port, const std::string& request, int deadline_ms) {
+    const int fd = tcp_connect(port);
+    if (fd < 0) return "noconnect";
+    write_all(fd, reinterpret_cast<const std::uint8_t*>(request.data()), request.size());
+    ::shutdown(fd, SHUT_WR);
+    pollfd p{fd, POLLIN, 0};
+    const int r = ::poll(&p, 1, deadline_ms);
+    std::string out = "timeout";
+    if (r > 0) {
+        const auto back = drain(fd, 200);
+        std::string text(back.begin(), back.end());
+        const auto q = text.find("CODE:");
+        out = q == std::string::npos ? (text.empty() ? "closed" : "nocode") : text.substr(q + 5, text.find('\n', q) - q - 5);
+    }
+    ::close(fd);
+    return out;
+}
+
+// a well-formed inbound transport handshake from a fresh peer; "acked" when the node answers within the deadline
+std::string transport_probe(std::uint16_t port, std::uint8_t tag, int deadline_ms) {
+    const int fd = tcp_connect(port);
+    if (fd < 0) return "noconnect";
+    protocol::Message hs{};
+    hs.type = protocol::MessageType::TransportHandshake;
+    protocol::TransportHandshakePayload hp{};
+    hp.public_identity = 5;
+    hp.work_nonce = 0;
+    hs.payload = hp;
+    const auto body = protocol::encode(hs);
+    std::vector<std::uint8_t> wire(32, 0);
+    wire[0] = tag;
+    const auto len = static_cast<std::uint32_t>(body.size());
+    wire.push_back(static_cast<std::uint8_t>(len >> 24));
+    wire.push_back(static_cast<std::uint8_t>(len >> 16));
+    wire.push_back(static_cast<std::uint8_t>(len >> 8));
+    wire.push_back(static_cast<std::uint8_t>(len));
+    wire.insert(wire.end(), body.begin(), body.end());
+    write_all(fd, wire.data(), wire.size());
+    pollfd p{fd, POLLIN, 0};
+    const int r = ::poll(&p, 1, deadline_ms);
+    std::string out = "timeout";
+    if (r > 0) {
+        std::uint8_t b[64];
+        out = ::recv(fd, b, sizeof(b), 0) > 0 ? "acked" : "closed";
+    }
+    ::close(fd);
+    return out;
+}
+
+// One client that connects and then says nothing: are the others still served?
+//   ctl-second : a PING sent while a silent client holds the control accept thread (deadline 1.5 s)
+//   ctl-after  : a PING after the silent client went away
+//   tr-second  : a well-formed transport handshake while a silent client holds the transport accept thread
+//                (deadline 4 s: the inbound handshake is meant to be bounded by kHandshakeTimeout = 2 s)
+std::string stall_probe() {
+    std::string out;
+    node->start_transport(0);
+    impl->start("127.0.0.1", 0);
+    sockaddr_in bound{};
+    socklen_t bl = sizeof(bound);
+    ::getsockname(impl->listen_socket_, reinterpret_cast<sockaddr*>(&bound), &bl);
+    const auto cport = ntohs(bound.sin_port);
+    const auto tport = node->transport_port();
+
+    const int silent_ctl = tcp_connect(cport);
+    std::this_thread::sleep_for(std::chrono::milliseconds(150));
+    out += " ctl-second=" + control_probe(cport, "COMMAND:PING\n\n", 1500);
+    if (silent_ctl >= 0) ::close(silent_ctl);
+    out += " ctl-after=" + control_probe(cport, "COMMAND:PING\n\n", 3000);
+
+    const int silent_tr = tcp_connect(tport);
+    const std::uint8_t few[5] = {1, 2, 3, 4, 5};
+    if (silent_tr >= 0) write_all(silent_tr, few, sizeof(few));
+    std::this_thread::sleep_for(std::chrono::milliseconds(150));
+    out += " tr-second=" + transport_probe(tport, 0xB7, 4000);
+    if (silent_tr >= 0) ::close(silent_tr);
+    out += " tr-after=" + transport_probe(tport, 0xB8, 4000);
+
+    impl->stop();
+    node->stop_transport();
+    return out;
+}
+
 protocol::Manifest with_duplicate_index(protocol::Manifest m) {
     if (m.shards.size() >= 2) m.shards[1].index = m.shards[0].index;
     return m;
@@ -464,7 +548,9 @@ std::string real_threads(const std::string& scenario) {
         while (ticker_run) { std::this_thread::sleep_for(std::chrono::milliseconds(5)); verif::vclock_advance(5'000'000); }
     });
     std::string out;
-    {
+    if (scenario == "stall") {
+        out = stall_probe();
+    } else {
         Config oc{};
         oc.identity_seed = 0x77u;
         oc.announce_pow_difficulty = 0;
